@@ -74,6 +74,9 @@ func sourceCallOrdinals(fn *ssa.Function) map[*ssa.CallCommon]int {
 					}
 				}
 			}
+			if name == "" && !cc.IsInvoke() {
+				name = funcValueName(cc.Value)
+			}
 			if name == "" {
 				continue
 			}
@@ -96,6 +99,31 @@ func sourceCallOrdinals(fn *ssa.Function) map[*ssa.CallCommon]int {
 		}
 	}
 	return out
+}
+
+// funcValueName: the name under which a call through a function value of unknown origin is
+// logged: the struct field it was read from (`req.Build(...)` and `f := c.commitFunc; f(...)`
+// are "Build" and "commitFunc") or the parameter that holds it. Empty when there is no such name.
+func funcValueName(v ssa.Value) string {
+	switch c := v.(type) {
+	case *ssa.Field:
+		if st, ok := c.X.Type().Underlying().(*types.Struct); ok {
+			return st.Field(c.Field).Name()
+		}
+	case *ssa.UnOp:
+		if c.Op == token.MUL {
+			if fa, ok := c.X.(*ssa.FieldAddr); ok {
+				if pt, ok := fa.X.Type().Underlying().(*types.Pointer); ok {
+					if st, ok := pt.Elem().Underlying().(*types.Struct); ok {
+						return st.Field(fa.Field).Name()
+					}
+				}
+			}
+		}
+	case *ssa.Parameter:
+		return c.Name()
+	}
+	return ""
 }
 
 // uniqueClosureOfCell: for a load `*cell` where cell is a local variable's cell that is
@@ -237,6 +265,18 @@ func (x *Exec) callCommon(fr *Frame, st *State, val ssa.Value, cc *ssa.CallCommo
 			x.check(fr, st, pos, "nil-func-call", "(not (= "+fv.S+" 0))")
 		}
 	}
+	dynNamed := false
+	if name == "" {
+		if _, ok := x.pureFieldFunc(cc); !ok {
+			if n := funcValueName(cc.Value); n != "" {
+				// a function value read from a field or handed in as a parameter: its body is
+				// unknown, but the call itself is logged (at-call clauses, called/argof/retof)
+				if fv := x.value(fr, cc.Value); fv.Cl == nil {
+					name, dynNamed = n, true
+				}
+			}
+		}
+	}
 	if name == "" {
 		// a function-valued struct field declared pure in a contract file
 		// (`func field:T.f` + `pure`): arbitrary result, no effect on the heap
@@ -273,6 +313,14 @@ func (x *Exec) callCommon(fr *Frame, st *State, val ssa.Value, cc *ssa.CallCommo
 	}
 	x.atCall(fr, st, name, ord, callee, logArgs, pos)
 	var res V
+	if dynNamed {
+		x.havocAll(st, fmt.Sprintf("call through the function value %s in %s (its body is unknown)", name, funcKey(fr.fn)))
+		res = x.freshOfType(st, rt, "dyn")
+		if rec != nil {
+			rec.res = res
+		}
+		return res
+	}
 	if nameOnly {
 		x.havocAll(st, fmt.Sprintf("call of closure %s from inside another closure (its captured state is not available there)", name))
 		res = x.freshOfType(st, rt, "dyn")
